@@ -83,4 +83,9 @@ CHECKS = {
         ref="5 C16", note="Trusted: TLC, the field splitter (split at the first two colons). Bounds: first field exhaustive over values of length <=2 (quick) / <=3 (thorough), second field from a representative set; no tabs, no CRLF, no repeated cg.",
         technique="TLC bounded enumeration of GafRecord field lists replayed through every re-emitting command; TLC validation of tag sequences",
     ),
+    "C12": dict(
+        text="Align.tla is the alignment automaton over (read position, path position); TLC uses it generatively (every slice of walks with forward/reverse steps, every read within the edit bound, checked valid by construction) and as the validator: every CIGAR written by gaftools realign is replayed through the automaton against the read slice and the spelled path slice, match count and block length are recomputed from it, and its gap-affine cost is compared with the input CIGAR's; seeded random reads add substitutions, short indels and >=60 bp insertion/deletion pairs; the 60,001-base pass-through is checked.",
+        ref="5 C12, App. A.4", note="Trusted: TLC, pysam FASTA fetch used by gaftools itself, harness FASTA/GAF writers. Penalties assumed to be pywfa's defaults (4/6/2). Bounds: slices <=5/6 bases, <=1/2 edits exhaustively; random reads up to ~1.2 kb.",
+        technique="TLC generative enumeration with the alignment automaton + TLC replay of every emitted CIGAR through the same automaton",
+    ),
 }
